@@ -25,7 +25,7 @@ from fractions import Fraction
 from engine import term as T, agg, build, vg, poly as P
 from engine.agg import ELEM, TU
 from engine.report import HOLDS, VIOLATED, UNDECIDED
-from .common import Analysed, fn_where, hoist, explain_diff, lift_all
+from .common import Analysed, fn_where, hoist, explain_diff, lift_all, narrowing
 
 HDR = agg.HEADER + '#include <ImathBoxAlgo.h>\n#include <ImathLine.h>\n'
 
@@ -508,6 +508,7 @@ def main(rep, ws, tier):
                 try: same = T.equiv(a_, b_, 400000)
                 except OverflowError: same = None
             rep.ob('intersects(box,ray)<%s>' % E, 'R14.wrap', HOLDS if same else (UNDECIDED if same is None else VIOLATED), 'same boolean as intersects(box,ray,ip)' if same else 'differs from the three-argument form', fn_where(S2.fn))
+    narrowing(rep, ws, [gen('d')], 'R14.prec')
     rep.floor('ray-box obligations', len(rep.obs), 26 * len(types))
     rep.assumptions += ['the specialised rays (one or two non-zero direction components, origin inside the other slabs) reach every one of the 12 per-face blocks',
                         'reflection compared up to the sign of zeros (negation normal form)',
